@@ -89,6 +89,24 @@ silent hybrid (new configuration/counters with the old results table) -/
 theorem json_full_statement_false : ∃ i mid, restoreOutcome (crashState 5 i mid) = .hybrid :=
   ⟨1, .prev, by decide⟩
 
+/-- making each *file* atomic (write to a temporary name, rename over the old file) does not help, it makes
+things worse: a file is then never `broken` or `cut`, so no crash inside the save is ever reported as an error —
+every crash point strictly inside the save (at least one file replaced and at least one not, with different
+contents) is restored as a silent hybrid.  (This is the seeded change `C06-json-tempfile-rename`.) -/
+theorem atomic_files_all_hybrid (i : Nat) (h1 : 1 ≤ i) (h2 : i ≤ 4) :
+    restoreOutcome (crashState 5 i .prev) = .hybrid ∧ restoreOutcome (crashState 5 i .done) = .hybrid ∨
+    restoreOutcome (crashState 5 i .prev) = .hybrid ∧ i = 4 := by
+  interval_cases i <;> decide
+
+theorem atomic_files_never_error (fs : List FileState) (h : ∀ f ∈ fs, f ≠ .broken) :
+    restoreOutcome fs ≠ .error := by
+  unfold restoreOutcome
+  have : fs.any (· == .broken) = false := by
+    rw [List.any_eq_false]; intro f hf; simpa using h f hf
+  rw [this]
+  simp only [Bool.false_eq_true, if_false]
+  split <;> [simp; (split <;> simp)]
+
 /-- what would make it true: a commit record written last and checked by the loader turns every incomplete
 save into "previous or error" — modelled as: the loader rejects any folder whose files are not all of one
 generation -/
